@@ -903,13 +903,13 @@ def run(ctx):
 
     tlc_runs = []
     cover_cfg = "MCCacheKey_keys.cfg" if ctx.quick else "MCCacheKey_ex4.cfg"
-    r_cover = vlib.run_tlc(ctx, "MCCacheKey", cover_cfg, workers=min(vlib.NCPU, 8), timeout=3000)
+    r_cover = vlib.run_tlc(ctx, "MCCacheKey", cover_cfg, workers=min(vlib.NCPU, 6), timeout=3000)
     vlib.tlc_require_ok(r_cover, "CacheKey invariants (%s)" % cover_cfg)
     tlc_runs.append((cover_cfg, r_cover))
     cover = r_cover.cases
     keycases = cover if ctx.quick else None
     if not ctx.quick:
-        r_keys = vlib.run_tlc(ctx, "MCCacheKey", "MCCacheKey_keys.cfg", workers=min(vlib.NCPU, 8), timeout=3000, coverage=True)
+        r_keys = vlib.run_tlc(ctx, "MCCacheKey", "MCCacheKey_keys.cfg", workers=min(vlib.NCPU, 6), timeout=3000, coverage=True)
         vlib.tlc_require_ok(r_keys, "CacheKey invariants (keys)")
         tlc_runs.append(("MCCacheKey_keys.cfg", r_keys))
         keycases = r_keys.cases
@@ -954,7 +954,7 @@ def run(ctx):
         return max(1, int(round(x * scale)))
     light = [h for h in multi if heavy_runs(h) == 0]
     if ctx.quick:
-        max_heavy = 6
+        max_heavy = 4
         chosen, uncovered = greedy_cover(multi, max_heavy)
         chosen_keys = {hist_key(h) for h in chosen}
         chosen += [h for h in vlib.sample(ctx, light, n(15)) if hist_key(h) not in chosen_keys]
@@ -971,6 +971,15 @@ def run(ctx):
         chosen += vlib.sample(ctx, [h for h in single if heavy_runs(h) == 0], n(40))
         chosen += vlib.sample(ctx, [h for h in sims if heavy_runs(h) <= 1], n(100))
         keysample = vlib.sample(ctx, [h for h in keycases if n_runs(h) >= 2 and heavy_runs(h) == 0], n(60))
+    # VERIF_C04_MAXHIST caps the number of replayed histories (smoke-testing a tier on an overloaded
+    # machine); 0 = no cap. Recorded in the evidence.
+    try:
+        cap = int(os.environ.get("VERIF_C04_MAXHIST", "0"))
+    except ValueError:
+        cap = 0
+    if cap > 0:
+        chosen = chosen[:cap]
+        keysample = keysample[:max(1, cap // 10)]
     # heavy histories first (long poles)
     jobs = [("std", h) for h in chosen] + [("key", h) for h in keysample]
     jobs.sort(key=lambda j: -heavy_runs(j[1]))
@@ -1042,6 +1051,7 @@ def run(ctx):
         "histories_replayed_with_key_tuples": len(keysample),
         "cover_features_left_uncovered": uncovered,
         "sample_scale(VERIF_C04_SCALE)": scale,
+        "history_cap(VERIF_C04_MAXHIST)": cap,
         "real_runs_compared_warm_vs_cold": stats["runs"],
         "runs_with_nonempty_report": stats["nonempty"],
         "staticcheck_invocations": stats["invocations"] + n_base,
